@@ -45,7 +45,7 @@ Qed.
    the contents of r<0> .. r<L-1> and of the file being written, r<L>. *)
 Theorem numbersdirect_cleanup c crit k n m t0 off ops closed cur :
   numdkcfg c crit k -> klimd k = Some (n, m) -> Forall basic_op ops ->
-  sfx_ok (c_spec c) -> (N.of_nat (length closed) < 100000)%N ->
+  sfx_ok (c_spec c) ->
   a_run None ops (snd (run (fst (step (sys0 t0 off) (OStart c))) ops)) = Some (closed, cur) ->
   let f := wfs (s_w (fst (run (sys0 t0 off) (OStart c :: ops ++ [OStop])))) in
   let L := length closed in let lo := S L - (n + m) in let mid := S L - n in
@@ -75,9 +75,9 @@ Theorem numbersdirect_cleanup c crit k n m t0 off ops closed cur :
   /\ lookup f (gname c L) = None
   /\ (exists fl, file_of f (rname c L) = Some fl /\ fdata fl = cur /\ fgz fl = 0%N /\ fdir fl = false).
 Proof.
-  intros Hcfg Hk Hb Hsfx HL Ea f L lo mid.
+  intros Hcfg Hk Hb Hsfx Ea f L lo mid.
   pose proof (numbersdirect_cleanup_stream c crit k t0 off ops Hcfg Hb) as T. cbv zeta in T. rewrite Ea in T. fold f in T.
-  destruct T as [Fl [V _]]. { unfold dside. rewrite Hk. split; assumption. }
+  destruct T as [Fl [V _]]. { unfold dside. rewrite Hk. exact Hsfx. }
   cbn [flat] in Fl. unfold d_lo, d_mid in V. rewrite Hk in V. fold L lo mid in V.
   pose proof (klimd_pos _ _ _ Hk) as Hn.
   pose proof (dkview_names _ _ _ _ _ _ V) as Names. fold L in Names.
@@ -93,9 +93,8 @@ Proof.
   { intros i Hi. unfold data_at, file_of. destruct (Nat.le_gt_cases mid i) as [H|H].
     - rewrite entry_plain by exact H. destruct (Hp i ltac:(lia)) as (j & -> & _ & Cj). exact Cj.
     - rewrite entry_arch by exact H. destruct (Ha i ltac:(lia)) as (j & -> & Dj & _). exact Dj. }
-  assert (HL' : (N.of_nat (S L) <= 100000)%N) by lia.
   assert (LG : forall off', list_log_gz off' (c_spec c) (fixed0 c) f IFNum = Some (listing c lo mid (S L))).
-  { intros off'. apply list_log_gz_numbers; [exact Hsfx | exact HL'|]. rewrite <- Elen. apply kdir_shape. exact KD. }
+  { intros off'. apply list_log_gz_numbers; [exact Hsfx|]. rewrite <- Elen. apply kdir_shape. exact KD. }
   split; [exact Fl|]. split; [exact Names|]. split; [exact Hnd|]. split; [exact Hnc|].
   split; [exact Hn|]. split; [exact Hmid|]. split; [unfold mid; lia|]. split; [unfold lo, mid; lia|].
   split; [exact LG|].
@@ -367,7 +366,7 @@ Example exd_instance :
 Proof.
   intros c f.
   pose proof (numbersdirect_cleanup c (CSize 3) (KLogGz 2 2) 2 2 0 0 ex_ops exd_closed (rec5 5)
-                (exd_numdkcfg _ _) eq_refl ex_ops_basic (exd_sfx_ok _) ltac:(vm_compute; reflexivity) exd_view) as T.
+                (exd_numdkcfg _ _) eq_refl ex_ops_basic (exd_sfx_ok _) exd_view) as T.
   cbv zeta in T. fold f in T. change (length exd_closed) with 5 in T. cbn [Nat.sub Nat.add] in T.
   destruct T as (_ & Names & _ & _ & _ & _ & _ & _ & _ & _ & Pl & Ar & Old & _ & NoG & Cur).
   split; [exact Names|].
@@ -386,14 +385,14 @@ Example exd_vs_never_instance :
 Proof.
   intros c. subst c.
   pose proof (numbersdirect_cleanup_vs_never (exd_kcfg (KLogGz 2 2) log_sfx) (CSize 3) (KLogGz 2 2) 0 0 ex_ops (exd_numdkcfg _ _) ex_ops_basic) as T.
-  cbv zeta in T. rewrite exd_view in T. apply T. split; [exact (exd_sfx_ok _) | vm_compute; reflexivity].
+  cbv zeta in T. rewrite exd_view in T. apply T. exact (exd_sfx_ok _).
 Qed.
 
 Example exd_no_panic_instance :
   Forall obs_ok (snd (run (sys0 0 0) (OStart (exd_kcfg (KGz 2) log_sfx) :: ex_ops ++ [OStop]))).
 Proof.
   apply (numbersdirect_cleanup_no_panic _ (CSize 3) (KGz 2)); [apply exd_numdkcfg | exact ex_ops_basic|].
-  split; [exact (exd_sfx_ok _) | vm_compute; reflexivity].
+  exact (exd_sfx_ok _).
 Qed.
 
 (* a history with buffering, append, flushes, triggers (also before the first record), clock ticks and an age-or-size
@@ -424,10 +423,10 @@ Proof.
   split.
   - pose proof (numbersdirect_cleanup exd_c2 _ (KLogGz 1 1) 1 1 0 0 exd_ops2
                   [bs "abcdef"%string; bs "g"%string; bs "hijklmnop"%string; bs "q"%string] []
-                  Hcfg eq_refl Hb Hsfx ltac:(vm_compute; reflexivity) exd2_view) as T.
+                  Hcfg eq_refl Hb Hsfx exd2_view) as T.
     cbv zeta in T. fold f in T. cbn [length Nat.sub Nat.add] in T. exact (proj1 (proj2 T)).
   - apply (numbersdirect_cleanup_no_panic _ _ (KLogGz 1 1) 0 0 exd_ops2 Hcfg Hb). rewrite exd2_view.
-    split; [exact Hsfx | vm_compute; reflexivity].
+    exact Hsfx.
 Qed.
 
 (* ------------------------------------------------------------------ the side conditions are necessary (findings) *)
@@ -447,26 +446,56 @@ Example d_sfx_log_gz_counterexample :
               (bs "a_r00005.log.gz"%string, 0%N, rec5 5)] None [].
 Proof. split; [vm_compute; discriminate | vm_compute; reflexivity]. Qed.
 
-(* 3. Index 100000 (L = 100000 closed files, the bound L < 100000 is sharp): the listing is sorted by name and "r100000"
-      sorts before "r99999", so r99999 is taken for the newest file - the one that is being written.  The cleanup with KLog 1
-      (after the rotation that opened r100000) REMOVES r100000, THE FILE THAT IS BEING WRITTEN, and keeps the closed file
-      r99999; with KGz 1 it compresses the file being written.  The writer goes on writing into the unlinked inode: what is
-      written until the next rotation is lost. *)
+(* 3. Index 100000, REPAIRED (this was the counterexample d_index_100000_counterexample: the listing was sorted by name,
+      "r100000" sorted before "r99999", so r99999 was taken for the file that is being written; the cleanup with KLog 1
+      REMOVED r100000, THE FILE THAT IS BEING WRITTEN, and with KGz 1 compressed it).  The sort key now compares the number
+      behind the last "_r" numerically: r100000 is listed first and spared; KLog 1 removes the closed file r99999, KGz 1
+      compresses it. *)
 Definition dbig_c (k : cleanup) : config := exd_kcfg k log_sfx.
 Definition dbig_fs : fs :=
   mkfile (mkfile empty_fs (rname (dbig_c (KLog 1)) (N.to_nat 99999)) (bs "closed"%string) 0 10)
          (rname (dbig_c (KLog 1)) (N.to_nat 100000)) (bs "current"%string) 0 20.
-Example d_index_100000_counterexample :
+Example d_index_100000_repaired :
   rname (dbig_c (KLog 1)) (N.to_nat 99999) = bs "a_r99999.log"%string
   /\ rname (dbig_c (KLog 1)) (N.to_nat 100000) = bs "a_r100000.log"%string
   /\ list_log_gz 0 (c_spec (dbig_c (KLog 1))) (fixed0 (dbig_c (KLog 1))) dbig_fs IFNum
-     = Some [bs "a_r99999.log"%string; bs "a_r100000.log"%string]
+     = Some [bs "a_r100000.log"%string; bs "a_r99999.log"%string]
   /\ (let r := cleanup_impl (dbig_c (KLog 1)) (world_of dbig_fs) (KLog 1) IFNum true in
       fst r = Ok tt
-      /\ map (data_at (wfs (snd r))) [bs "a_r99999.log"%string; bs "a_r100000.log"%string] = [bs "closed"%string; []]
-      /\ lookup (wfs (snd r)) (bs "a_r100000.log"%string) = None)
+      /\ map (data_at (wfs (snd r))) [bs "a_r99999.log"%string; bs "a_r100000.log"%string] = [[]; bs "current"%string]
+      /\ lookup (wfs (snd r)) (bs "a_r99999.log"%string) = None)
   /\ (let r := cleanup_impl (dbig_c (KGz 1)) (world_of dbig_fs) (KGz 1) IFNum true in
       fst r = Ok tt
-      /\ lookup (wfs (snd r)) (bs "a_r100000.log"%string) = None
-      /\ map (data_at (wfs (snd r))) [bs "a_r99999.log"%string; bs "a_r100000.log.gz"%string] = [bs "closed"%string; bs "current"%string]).
+      /\ lookup (wfs (snd r)) (bs "a_r99999.log"%string) = None /\ lookup (wfs (snd r)) (bs "a_r100000.log.gz"%string) = None
+      /\ map (data_at (wfs (snd r))) [bs "a_r99999.log.gz"%string; bs "a_r100000.log"%string] = [bs "closed"%string; bs "current"%string]).
 Proof. vm_compute. repeat split; reflexivity. Qed.
+
+(* 4. AN EMPTY FIXED NAME PART (basename suppressed, no discriminant), REPAIRED (this was the counterexample
+      d_index_100000_counterexample_empty_fixed to the first version of the repair, which split the name at "_r" only): the
+      names are r<digits>.<suffix> without "_"; the sort key reads the number behind the leading "r": r100000, the file
+      that is being written, is listed first and spared; KLog 1 removes the closed file r99999, KGz 1 compresses it. *)
+Definition dnofix_c (k : cleanup) : config :=
+  {| c_spec := {| fbase := []; fdisc := None; fts := false; fsfx := log_sfx |};
+     c_append := false; c_cap := None; c_rot := Some (CSize 3, NNumbersDirect, k); c_utc := false; c_symlink := false;
+     c_bg := false; c_async := false; c_start := None |}.
+Definition dnofix_fs : fs :=
+  mkfile (mkfile empty_fs (rname (dnofix_c (KLog 1)) (N.to_nat 99999)) (bs "closed"%string) 0 10)
+         (rname (dnofix_c (KLog 1)) (N.to_nat 100000)) (bs "current"%string) 0 20.
+Example d_index_100000_empty_fixed_repaired :
+  numdkcfg (dnofix_c (KLog 1)) (CSize 3) (KLog 1) /\ sfx_ok (c_spec (dnofix_c (KLog 1))) /\ fixed0 (dnofix_c (KLog 1)) = []
+  /\ rname (dnofix_c (KLog 1)) (N.to_nat 99999) = bs "r99999.log"%string
+  /\ rname (dnofix_c (KLog 1)) (N.to_nat 100000) = bs "r100000.log"%string
+  /\ list_log_gz 0 (c_spec (dnofix_c (KLog 1))) (fixed0 (dnofix_c (KLog 1))) dnofix_fs IFNum
+     = Some [bs "r100000.log"%string; bs "r99999.log"%string]
+  /\ (let r := cleanup_impl (dnofix_c (KLog 1)) (world_of dnofix_fs) (KLog 1) IFNum true in
+      fst r = Ok tt
+      /\ map (data_at (wfs (snd r))) [bs "r99999.log"%string; bs "r100000.log"%string] = [[]; bs "current"%string]
+      /\ lookup (wfs (snd r)) (bs "r99999.log"%string) = None)
+  /\ (let r := cleanup_impl (dnofix_c (KGz 1)) (world_of dnofix_fs) (KGz 1) IFNum true in
+      fst r = Ok tt
+      /\ lookup (wfs (snd r)) (bs "r99999.log"%string) = None /\ lookup (wfs (snd r)) (bs "r100000.log.gz"%string) = None
+      /\ map (data_at (wfs (snd r))) [bs "r99999.log.gz"%string; bs "r100000.log"%string] = [bs "closed"%string; bs "current"%string]).
+Proof.
+  split; [repeat split|]. split; [vm_compute; reflexivity|]. split; [reflexivity|].
+  vm_compute. repeat split; reflexivity.
+Qed.
